@@ -432,8 +432,8 @@ def run(repo, rep, tier):
     r3 = rep.rule("R15.3", "closed key-set gates whose failure edge only raises; no fall-through return", floor=24 + 19)
     r5 = rep.rule("R15.5", "JSON values are used only under a validation whose type agrees with the use", floor=60)
     # a child fragment must be parsed by the factory named by ITS OWN type tag: otherwise a document whose tag and payload disagree is accepted
-    rep.borrow(repo, "C04", {"R4.1": ("R15.8", "every JSON object the writer emits is read behind a closed hasKeys gate (no foreign key is silently dropped)", 100)},
-               keep=lambda f: "hasKeys gate" in f.message or "gate" in f.stmt)
+    rep.borrow(repo, "C04", {"R4.1": ("R15.8", "every JSON object the writer emits is read behind a closed hasKeys gate, and every key that is read reaches the field it was written from (nothing silently dropped or defaulted)", 100)},
+               keep=lambda f: "hasKeys gate" in f.message or "gate" in f.stmt or "stores it into no field" in f.message)
     rep.borrow(repo, "C04", {"R4.3": ("R15.7", "every child fragment is parsed by the factory looked up under its own type tag", 25)},
                keep=lambda f: "factory looked up" in f.message)
     r6 = rep.rule("R15.6", "ed() re-validates entries/ranges; header and version gate raise", floor=19 + 4)
@@ -451,6 +451,7 @@ def run(repo, rep, tier):
         rule_tag_lookup(rep, r3, f, jp)
     rule_ed(repo, rep, r6)
     rule_header(repo, rep, r3, r5, r6)
+    rule_version_monotone(repo, rep, r6)
     rule_unraised(repo, rep)
     # the gate helper itself: hasKeys/maybeAdd must not modify a mutable default (a leaked `optional` set admits extra keys later)
     from .c06 import mutable_default_writes
@@ -952,6 +953,50 @@ def rule_ed(repo, rep, r6):
             if not have:
                 rep.finding("R15.6", f, f.node, f"__init__ rejects `{want}` but ed() (the JSON path) does not",
                             stmt=f"range check {want}")
+
+
+def rule_version_monotone(repo, rep, r6):
+    """version.compatible(document version): whatever the arithmetic, a newer document must never be MORE acceptable than an older
+    one - every ordering comparison has a component of the library's own version on the greater side and a component of the
+    document's version on the smaller side."""
+    vm = repo.modules.get("histogrammar.version")
+    if vm is None or "compatible" not in vm.functions:
+        raise AnalysisError("histogrammar.version.compatible not found")
+    f = vm.functions["compatible"]
+    rep.analysed_functions.add(f.construct)
+    param = f.params[0]
+    origin = {}
+    for st in walk_local_stmt(f.node):
+        if isinstance(st, ast.Assign) and len(st.targets) == 1:
+            src = {x.id for x in ast.walk(st.value) if isinstance(x, ast.Name)}
+            who = "document" if param in src else ("library" if "version" in src or any(origin.get(x) == "library" for x in src) else None)
+            if any(origin.get(x) == "document" for x in src):
+                who = "document"
+            if who:
+                for t in ast.walk(st.targets[0]):
+                    if isinstance(t, ast.Name):
+                        origin[t.id] = who
+    origin[param] = "document"
+
+    def side(e):
+        whos = {origin.get(x.id) for x in ast.walk(e) if isinstance(x, ast.Name)} - {None}
+        return whos.pop() if len(whos) == 1 else None
+    n_cmp = 0
+    for n in walk_local_stmt(f.node):
+        if isinstance(n, ast.Compare) and len(n.ops) == 1 and isinstance(n.ops[0], (ast.Gt, ast.GtE, ast.Lt, ast.LtE)):
+            l, r = side(n.left), side(n.comparators[0])
+            if {l, r} != {"library", "document"}:
+                continue
+            n_cmp += 1
+            greater = l if isinstance(n.ops[0], (ast.Gt, ast.GtE)) else r
+            ok = greater == "library"
+            r6.ob(ok, f"version.compatible: `{ast.unparse(n)}` has the library's version on the greater side")
+            if not ok:
+                rep.finding("R15.6", f, n, f"`{ast.unparse(n)}` accepts a document when ITS version component is the greater one: documents written by a "
+                            f"newer specification than this library understands are loaded instead of being refused (and the check is no longer "
+                            f"monotone in the document's version)", stmt=f"version comparison reversed: {ast.unparse(n)}")
+    if n_cmp == 0:
+        raise AnalysisError("version.compatible: no comparison between the library's and the document's version found")
 
 
 def rule_header(repo, rep, r3, r5, r6):
